@@ -335,3 +335,60 @@ def c12_repr(tier, rng):
         viol.append({"obligation": "C12.representations", "inputs": {"which": which}, "observed": p[:4],
                      "required": "identical outputs", "replay_call": "contracts.c_inputs:replay_repr"})
     return {"cases": len(which) + 1 + ("split_by_flag" in which) + 2 * ("replaced_gz" in which) + ("yaml_same_names" in which) + ("sq_order" in which), "bound": "bundled chr9 data; variants %s" % which, "violations": viol, "samples": [{"variants": which}]}
+
+
+# ---- list files: every file of every experiment reaches the experiment ---------------------------------------------------------------------------------
+@finite("C12.list_file_parsing", ["C12", "C10"], note="the real InputDataStorage.get_samples_from_file on list files of 1-3 experiments with 1-2 files each, experiments separated "
+        "by blank lines and / or #name lines in every combination: each experiment gets exactly its files, in order, one library per line")
+def c12_list_file_parsing(tier, rng):
+    import contextlib, io, itertools, shutil, tempfile
+    ids = native.repo_import("src/input_data_storage.py")
+    base = os.path.join(os.path.dirname(os.path.dirname(os.path.abspath(__file__))), ".run")
+    os.makedirs(base, exist_ok=True)
+    d = tempfile.mkdtemp(prefix="lst", dir=base)
+    obl = dis = 0
+    viol = []
+    try:
+        files = [os.path.join(d, "f%d.bam" % k) for k in range(6)]
+        for f in files:
+            open(f, "w").close()
+        for nexp in (1, 2, 3):
+            for sizes in itertools.product((1, 2), repeat=nexp):
+                for seps in itertools.product(("name", "blank", "blank_name"), repeat=nexp):
+                    if seps[0] == "blank_name":
+                        continue
+                    obl += 1
+                    lines, want, k = [], [], 0
+                    for e in range(nexp):
+                        if seps[e] == "name":
+                            lines.append("#exp%d" % e)
+                        elif seps[e] == "blank":
+                            if e > 0:
+                                lines.append("")
+                        else:
+                            lines += ["", "#exp%d" % e]
+                        mine = files[k:k + sizes[e]]
+                        k += sizes[e]
+                        lines += mine
+                        want.append([[f] for f in mine])
+                    path = os.path.join(d, "in.list")
+                    open(path, "w").write("\n".join(lines) + "\n")
+                    s = ids.InputDataStorage.__new__(ids.InputDataStorage)
+                    s.experiment_prefix, s.input_type = "RUN", "bam"
+                    try:
+                        with contextlib.redirect_stdout(io.StringIO()):
+                            got = s.get_samples_from_file(path)[0]
+                    except SystemExit:
+                        got = "refused"
+                    except Exception as e:
+                        got = "%s: %s" % (type(e).__name__, e)
+                    if got == want:
+                        dis += 1
+                    elif len(viol) < 3:
+                        viol.append({"obligation": "C12.list_file_parsing.%s.%s" % ("_".join(map(str, sizes)), "_".join(seps)),
+                                     "inputs": {"list_file": [l.replace(d + "/", "") for l in lines]},
+                                     "observed": str(got).replace(d + "/", ""), "required": str(want).replace(d + "/", "")})
+    finally:
+        shutil.rmtree(d, ignore_errors=True)
+    return {"obligations": obl, "discharged": dis, "violations": viol, "cases": obl, "exhaustive": True,
+            "bound": "1-3 experiments x 1-2 files x separators {#name, blank line, blank line + #name}", "samples": [{"list_file": ["f0.bam", "", "f1.bam", "f2.bam"]}]}
